@@ -150,7 +150,10 @@ uint32_t* get_distribution_global(YR_SCAN_CONTEXT* context)
     }
     const uint8_t* block_data = yr_fetch_block_data(block);
 
-    if (block_data == NULL)
+    // A block of zero bytes has nothing to count and may come without a data
+    // pointer (an empty file is never mapped); only a block that has bytes but
+    // can't deliver them makes the distribution undefined.
+    if (block_data == NULL && block->size > 0)
     {
       yr_free(data);
       return NULL;
